@@ -2,7 +2,8 @@ import SaVerif.Model.SessTxn
 import SaVerif.Drv.Parse
 /-!
 Sub-driver for M-SESS.   `sess run <eoc 0|1> <ops separated by ;>`
-op tokens: A<o>:<pk>:<v>  M<o>:<v>  K<o>:<pk>  D<o>  F  L<o>  b  n  C  R  X  c<h>  r<h>
+op tokens: A<o>:<pk>:<v>  M<o>:<v>  K<o>:<pk>  D<o>  F  L<o>  b  n  C  R  X  c<h>  r<h>  Z0 Z1
+`sess runa <eoc> <autoflush 0|1> <ops>`
 response: one record per op separated by `|`, fields by `/`:
   res / inTxn inNested / depth / objs / committed / working      (see harness/lib_sess.py)
 -/
@@ -15,6 +16,7 @@ def parseOp (nobj : Nat) (s : String) : Option SOp :=
   match s.toList with
   | ['F'] => some .flush | ['b'] => some .begin | ['n'] => some .beginNested
   | ['C'] => some .commit | ['R'] => some .rollback | ['X'] => some .close
+  | ['Z', '0'] => some (.setAutoflush false) | ['Z', '1'] => some (.setAutoflush true)
   | c :: rest =>
     match nats? (String.ofList rest), c with
     | some [o, pk, v], 'A' => if o == nobj then some (.add pk v) else none
@@ -78,6 +80,13 @@ def handle : List String → String
       | some out => if out.isEmpty then "-" else "|".intercalate out
       | none => "bad-op"
     | _ => "bad-op"
+  | ["runa", eoc, af, ops] =>      -- Session(autoflush=<af>)
+    match eoc, af with
+    | "0", "0" | "0", "1" | "1", "0" | "1", "1" =>
+      match runOps (Sess.init (eoc == "1") (af == "1")) (if ops == "-" then [] else ops.splitOn ";") with
+      | some out => if out.isEmpty then "-" else "|".intercalate out
+      | none => "bad-op"
+    | _, _ => "bad-op"
   | _ => "bad-op"
 
 end SaVerif.Drv.SessTxn
